@@ -32,4 +32,27 @@ impl Script {
     #[verifier::external_body]
     pub fn calc_script_hash(&self) -> (r: Byte32) ensures r@ == script_hash_of(*self) { unimplemented!() }
 }
+// (a..b).map(f).collect::<Vec<_>>()
+#[verifier::external_body]
+pub fn vf_range_map<B, F: Fn(usize) -> B>(a: usize, b: usize, f: F) -> (r: Vec<B>)
+    requires forall|i: usize| a <= i < b ==> call_requires(f, (i,)),
+    ensures r@.len() == (if a <= b { b - a } else { 0 }), forall|k: int| 0 <= k < r@.len() ==> call_ensures(f, ((a + k) as usize,), #[trigger] r@[k]),
+{ unimplemented!() }
+// `let mut a = [0u8; 8]; a.copy_from_slice(s);`
+#[verifier::external_body]
+pub fn vf_array8_from_slice(s: &[u8]) -> (r: [u8; 8]) requires s@.len() == 8 ensures r@ == s@ { unimplemented!() }
+// u8::from(bool)
+pub fn vf_bool_u8(b: bool) -> (r: u8) ensures r == (if b { 1u8 } else { 0u8 }) { if b { 1 } else { 0 } }
+// packed::Byte32Reader::from_slice_should_be_ok(s).to_entity()
+#[verifier::external_body]
+pub struct Byte32ReaderS { b: Vec<u8> }
+impl Byte32ReaderS {
+    pub uninterp spec fn s_bytes(&self) -> Seq<u8>;
+    #[verifier::external_body]
+    pub fn from_slice_should_be_ok(s: &[u8]) -> (r: Byte32ReaderS) ensures r.s_bytes() == s@ { unimplemented!() }
+    #[verifier::external_body]
+    pub fn to_entity(&self) -> (r: Byte32) ensures r@ == self.s_bytes() { unimplemented!() }
+}
+// ASSUMED: a Byte32 is 32 bytes
+pub broadcast proof fn ax_byte32_len(b: Byte32) ensures (#[trigger] b@).len() == 32 { admit(); }
 // ===== end =====
